@@ -18,6 +18,14 @@ Section ExprInd.
   Hypothesis HTup : forall l, Forall P l -> P (Tup l).
   Hypothesis HSeq : forall l, Forall P l -> P (Seq l).
   Hypothesis HMat : forall imm rows, Forall (Forall P) rows -> P (Mat imm rows).
+  Hypothesis HSide : forall p e, P e -> P (Side p e).
+  Hypothesis HGeo : forall g, P (Geo g).
+  Hypothesis HIBase : forall s, P (IBase s).
+  Hypothesis HIdxS : forall s, P (IdxS s).
+  Hypothesis HImI : P ImI.
+  Hypothesis HPIdx : forall b i, P (PIdx b i).
+  Hypothesis HPB : forall f v e, P e -> P (PB f v e).
+  Hypothesis HOpaque : forall b, P (Opaque b).
 
   Fixpoint expr_ind' (e : expr) : P e :=
     let fix go (l : list expr) : Forall P l :=
@@ -36,8 +44,54 @@ Section ExprInd.
     | Tup l => HTup l (go l)
     | Seq l => HSeq l (go l)
     | Mat imm rows => HMat imm rows (go2 rows)
+    | Side p x => HSide p x (expr_ind' x)
+    | Geo g => HGeo g
+    | IBase n => HIBase n
+    | IdxS n => HIdxS n
+    | ImI => HImI
+    | PIdx b i => HPIdx b i
+    | PB f v x => HPB f v x (expr_ind' x)
+    | Opaque b => HOpaque b
     end.
 End ExprInd.
+
+(* ================================================================== outcomes *)
+Lemma rmap_rmap {A B C} (g : B -> C) (f : A -> B) r : rmap g (rmap f r) = rmap (fun a => g (f a)) r.
+Proof. destruct r; reflexivity. Qed.
+Lemma rmap_ext {A B} (f g : A -> B) r : (forall a, f a = g a) -> rmap f r = rmap g r.
+Proof. intros H. destruct r; simpl; congruence. Qed.
+Lemma rmap_id {A} (f : A -> A) r : (forall a, f a = a) -> rmap f r = r.
+Proof. intros H. destruct r; simpl; congruence. Qed.
+Lemma rmap_ok {A B} (f : A -> B) r b : rmap f r = Ok b -> exists a, r = Ok a /\ b = f a.
+Proof. destruct r; simpl; intros E; inversion E. eauto. Qed.
+Lemma rmap_inj {A B} (f : A -> B) r1 r2 : (forall a b, f a = f b -> a = b) -> rmap f r1 = rmap f r2 -> r1 = r2.
+Proof. intros H. destruct r1, r2; simpl; intros E; inversion E; try reflexivity. f_equal. auto. Qed.
+
+Lemma mapM_ext_Forall {A B} (f g : A -> res B) l : Forall (fun x => f x = g x) l -> mapM f l = mapM g l.
+Proof. induction 1; simpl; [reflexivity|]. rewrite H, IHForall. reflexivity. Qed.
+
+Lemma mapM_ok {A B} (f : A -> res B) l ys : mapM f l = Ok ys -> Forall2 (fun x y => f x = Ok y) l ys.
+Proof.
+  revert ys. induction l as [|x l IH]; simpl; intros ys E.
+  - inversion E. constructor.
+  - destruct (f x) eqn:Ex; [|discriminate]. destruct (mapM f l) eqn:El; [|discriminate].
+    inversion E. constructor; auto.
+Qed.
+
+Lemma mapM_total {A B} (f : A -> res B) l :
+  (exists ys, mapM f l = Ok ys) <-> Forall (fun x => exists y, f x = Ok y) l.
+Proof.
+  induction l as [|x l IH]; simpl.
+  - split; [constructor|eauto].
+  - split.
+    + intros [ys E]. destruct (f x) eqn:Ex; [|discriminate]. destruct (mapM f l) eqn:El; [|discriminate].
+      constructor; [eauto|]. apply IH. eauto.
+    + intros H. inversion H as [|? ? [y Ey] Hl]. subst. apply IH in Hl. destruct Hl as [ys El].
+      rewrite Ey, El. eauto.
+Qed.
+
+Lemma mapM_id_Forall {A} (f : A -> res A) l : Forall (fun x => f x = Ok x) l -> mapM f l = Ok l.
+Proof. induction 1; simpl; [reflexivity|]. rewrite H, IHForall. reflexivity. Qed.
 
 (* ================================================================== strings *)
 Fixpoint cnt (c : ascii) (s : string) : nat :=
@@ -251,14 +305,28 @@ Definition pure (ops : list dop) : bool := forallb is_phys ops || forallb is_log
 (* multi-indices of pure chains: only physical or only logical orders *)
 Definition pure_mi (m : idx3 * idx3) : Prop := is0 (fst m) = true \/ is0 (snd m) = true.
 
-Definition fname (a : fatom) : string := match a with FScal n => n | FComp n _ => n end.
-Definition base_name (a : fatom) : string :=
-  match a with FScal n => n | FComp n i => n ++ "_" ++ dec i end.
+(* a plain function atom: a scalar function or a component of a vector function, no interface operator around it *)
+Definition funatom0 (a : fatom) : bool := match a with FScal _ | FComp _ _ => true | _ => false end.
+(* a function atom, possibly restricted to a side of an interface *)
+Fixpoint funatom (a : fatom) : bool :=
+  match a with FScal _ | FComp _ _ => true | FSide _ a' => funatom a' | FMap _ _ => false end.
+
+Fixpoint fname (a : fatom) : string :=
+  match a with FScal n => n | FComp n _ => n | FSide _ a' => fname a' | FMap _ _ => "" end.
+Fixpoint base_name (a : fatom) : res string :=
+  match a with
+  | FScal n => Ok n
+  | FComp n i => Ok (n ++ "_" ++ dec i)
+  | FSide _ a' => base_name a'
+  | FMap m i => rmap (fun c => if map_is_plus m then c ++ "_plus" else c) (coord_name i)
+  end.
 Definition code_suffix (m : idx3 * idx3) : string :=
   if negb (is0 (fst m)) then "_" ++ code_phys (fst m)
   else if negb (is0 (snd m)) then "_" ++ code_log (snd m) else "".
-(* the canonical name of the identity (component, multi-index) *)
-Definition spec_name (a : fatom) (m : idx3 * idx3) : string := base_name a ++ code_suffix m.
+(* the canonical name of the identity (component, multi-index); an exception for a fourth, fifth, ... component
+   of a mapping *)
+Definition spec_name (a : fatom) (m : idx3 * idx3) : res string :=
+  rmap (fun b => b ++ code_suffix m) (base_name a).
 
 Lemma count_phys_log d ops : is_log d = true -> forallb is_phys ops = true -> count d ops = 0.
 Proof.
@@ -301,8 +369,16 @@ Proof.
   destruct H as [Ho Hr]. unfold kind_of. unfold is_log in Ho. apply negb_true_iff in Ho. rewrite Ho. simpl. auto.
 Qed.
 
-Lemma atom_name_code a c : String.eqb c "" = false -> atom_name a (Some c) = base_name a ++ "_" ++ c.
-Proof. intros H. destruct a; simpl; rewrite H; reflexivity. Qed.
+Lemma atom_name_code a c :
+  String.eqb c "" = false -> atom_name a (Some c) = rmap (fun b => b ++ "_" ++ c) (base_name a).
+Proof.
+  intros H. induction a as [n|n i|p a IH|m i]; simpl; try (rewrite H; reflexivity); [exact IH|].
+  rewrite rmap_rmap. apply rmap_ext. intros x. now rewrite H.
+Qed.
+Lemma atom_name_none a : atom_name a None = base_name a.
+Proof.
+  induction a as [n|n i|p a IH|m i]; simpl; auto.
+Qed.
 
 Lemma code_suffix_phys m : is0 (fst m) = false -> code_suffix m = "_" ++ code_phys (fst m).
 Proof. unfold code_suffix. now intros ->. Qed.
@@ -313,7 +389,7 @@ Proof. unfold code_suffix. now intros -> ->. Qed.
 Lemma chain_name_pure ops a : pure ops = true -> chain_name ops a = spec_name a (multi_index ops).
 Proof.
   unfold pure, chain_name, spec_name. intros H. destruct ops as [|o r].
-  - simpl. destruct a; simpl; now rewrite ?app_nil_r_s.
+  - simpl. rewrite atom_name_none. symmetry. apply rmap_id. intros x. apply app_nil_r_s.
   - apply orb_true_iff in H. destruct H as [H|H].
     + pose proof H as H'. simpl in H'. apply andb_true_iff in H'. destruct H' as [Ho Hr].
       cbn [chain_eval]. unfold kind_of. rewrite Ho. rewrite chain_eval_strip_phys by exact Hr.
@@ -359,12 +435,15 @@ Proof.
     simpl in Ha. inversion Ha. subst. eauto.
 Qed.
 
+(* plain function atoms: scalar functions and components *)
 Theorem spec_name_inj_family a1 a2 m1 m2 :
+  funatom0 a1 = true -> funatom0 a2 = true ->
   ~ ext (fname a1) (fname a2) -> ~ ext (fname a2) (fname a1) -> pure_mi m1 -> pure_mi m2 ->
   spec_name a1 m1 = spec_name a2 m2 -> a1 = a2 /\ m1 = m2.
 Proof.
-  intros H1 H2 P1 P2. unfold spec_name.
-  destruct a1 as [n1|n1 i1], a2 as [n2|n2 i2]; simpl in *; intros E.
+  intros F1 F2 H1 H2 P1 P2. unfold spec_name.
+  destruct a1 as [n1|n1 i1| |], a2 as [n2|n2 i2| |]; try discriminate; simpl in *; intros E; inversion E as [E0]; clear E;
+    rename E0 into E.
   - apply app_ext_inj in E; auto using code_suffix_tailok. destruct E as [-> E].
     apply code_suffix_inj in E; auto; try (now subst).
   - exfalso. rewrite !app_assoc_s in E. apply app_ext_inj in E; auto using code_suffix_tailok.
@@ -387,17 +466,148 @@ Proof.
 Qed.
 
 Theorem spec_name_inj a1 a2 m1 m2 :
+  funatom0 a1 = true -> funatom0 a2 = true ->
   nosep (fname a1) -> nosep (fname a2) -> pure_mi m1 -> pure_mi m2 ->
   spec_name a1 m1 = spec_name a2 m2 -> a1 = a2 /\ m1 = m2.
-Proof. intros H1 H2. apply spec_name_inj_family; now apply nosep_not_ext. Qed.
+Proof. intros F1 F2 H1 H2. apply spec_name_inj_family; auto; now apply nosep_not_ext. Qed.
+
+(* ------------------------------------------------------------------ all atoms: what the name identifies *)
+(* The symbol does not record on which side of an interface a function is taken, nor which mapping a mapping
+   component belongs to (only whether the mapping is the plus side of an interface).  The identity a symbol DOES
+   determine: *)
+Inductive akey := KFun (n : string) | KComp (n : string) (i : nat) | KCoord (i : nat) (plus : bool).
+Fixpoint akey_of (a : fatom) : akey :=
+  match a with
+  | FScal n => KFun n
+  | FComp n i => KComp n i
+  | FSide _ a' => akey_of a'
+  | FMap m i => KCoord i (map_is_plus m)
+  end.
+
+(* the coordinate names are reserved: a function must not be called x, y or z *)
+Definition reserved (n : string) : Prop := n = "x" \/ n = "y" \/ n = "z".
+(* hygiene of an atom: a function name without separator that is no coordinate name; an existing component of
+   a mapping *)
+Fixpoint hyg (a : fatom) : Prop :=
+  match a with
+  | FScal n | FComp n _ => nosep n /\ ~ reserved n
+  | FSide _ a' => hyg a'
+  | FMap _ i => i < 3
+  end.
+
+Lemma unside_not_side a : match unside a with FSide _ _ => False | _ => True end.
+Proof. induction a; simpl; auto. Qed.
+Lemma base_name_unside a : base_name (unside a) = base_name a.
+Proof. induction a; simpl; auto. Qed.
+Lemma akey_unside a : akey_of (unside a) = akey_of a.
+Proof. induction a; simpl; auto. Qed.
+Lemma hyg_unside a : hyg a -> hyg (unside a).
+Proof. induction a; simpl; auto. Qed.
+Lemma funatom_unside a : funatom a = funatom0 (unside a).
+Proof. induction a; simpl; auto. Qed.
+
+Lemma coord_name_ok i : i < 3 -> exists c, coord_name i = Ok c /\ reserved c.
+Proof.
+  unfold reserved. destruct i as [|[|[|i]]]; simpl; intros H; try lia; eexists; (split; [reflexivity|]); auto.
+Qed.
+Lemma coord_name_inj i j c : coord_name i = Ok c -> coord_name j = Ok c -> i = j.
+Proof.
+  destruct i as [|[|[|i]]], j as [|[|[|j]]]; simpl; intros E1 E2; inversion E1; subst; inversion E2; reflexivity.
+Qed.
+Lemma reserved_nosep c : reserved c -> nosep c.
+Proof. intros [-> | [-> | ->]]; reflexivity. Qed.
+
+Definition plus_tag (b : bool) : string := if b then "_plus" else "".
+Lemma plus_tag_tailok b s : tailok s -> tailok (plus_tag b ++ s).
+Proof. destruct b; simpl; [intros _; right; eexists; reflexivity|auto]. Qed.
+
+Lemma base_name_map m i : i < 3 -> exists c, reserved c /\ coord_name i = Ok c /\ base_name (FMap m i) = Ok (c ++ plus_tag (map_is_plus m)).
+Proof.
+  intros H. destruct (coord_name_ok i H) as [c [Ec Rc]]. exists c. repeat split; auto.
+  simpl. rewrite Ec. simpl. unfold plus_tag. destruct (map_is_plus m); [reflexivity|now rewrite app_nil_r_s].
+Qed.
+
+Lemma plus_suffix_inj b1 b2 m1 m2 :
+  pure_mi m1 -> pure_mi m2 -> plus_tag b1 ++ code_suffix m1 = plus_tag b2 ++ code_suffix m2 -> b1 = b2 /\ m1 = m2.
+Proof.
+  intros P1 P2. destruct b1, b2; simpl; intros E.
+  - inversion E as [E']. split; [reflexivity|]. now apply code_suffix_inj.
+  - exfalso. destruct (code_suffix_hd m2) as [K|[a [r [K La]]]]; rewrite K in E; [discriminate|].
+    inversion E. subst a. discriminate La.
+  - exfalso. destruct (code_suffix_hd m1) as [K|[a [r [K La]]]]; rewrite K in E; [discriminate|].
+    inversion E. subst a. discriminate La.
+  - split; [reflexivity|]. now apply code_suffix_inj.
+Qed.
+
+Lemma hyg_fun_nosep a : funatom0 a = true -> hyg a -> nosep (fname a).
+Proof. destruct a; simpl; try discriminate; tauto. Qed.
+
+Lemma spec_name_inj_fun x y m1 m2 :
+  funatom0 x = true -> funatom0 y = true -> hyg x -> hyg y -> pure_mi m1 -> pure_mi m2 ->
+  rmap (fun b => b ++ code_suffix m1) (base_name x) = rmap (fun b => b ++ code_suffix m2) (base_name y) ->
+  akey_of x = akey_of y /\ m1 = m2.
+Proof.
+  intros F1 F2 H1 H2 P1 P2 E. destruct (spec_name_inj x y m1 m2) as [-> ->]; auto using hyg_fun_nosep.
+Qed.
+
+(* the canonical name is injective on (what the symbol identifies, multi-index) *)
+Theorem spec_name_inj_ext a1 a2 m1 m2 :
+  hyg a1 -> hyg a2 -> pure_mi m1 -> pure_mi m2 ->
+  spec_name a1 m1 = spec_name a2 m2 -> akey_of a1 = akey_of a2 /\ m1 = m2.
+Proof.
+  intros H1 H2 P1 P2. unfold spec_name. rewrite <- (base_name_unside a1), <- (base_name_unside a2),
+    <- (akey_unside a1), <- (akey_unside a2).
+  apply hyg_unside in H1, H2. pose proof (unside_not_side a1) as N1. pose proof (unside_not_side a2) as N2.
+  destruct (unside a1) as [n1|n1 i1|? ?|k1 i1] eqn:U1; try contradiction;
+    destruct (unside a2) as [n2|n2 i2|? ?|k2 i2] eqn:U2; try contradiction; clear N1 N2.
+  (* function atoms on both sides *)
+  1,2,4,5: apply spec_name_inj_fun; auto.
+  (* a function atom against a mapping component: the function would be called x, y or z *)
+  - intros E. exfalso. simpl in H1, H2. destruct (base_name_map k2 i2 H2) as [c [Rc [_ Eb]]]. rewrite Eb in E.
+    simpl in E. inversion E as [E']. rewrite app_assoc_s in E'.
+    apply app_nosep_inj in E'; try tauto; auto using reserved_nosep, code_suffix_tailok, plus_tag_tailok.
+    destruct E' as [-> _]. tauto.
+  - intros E. exfalso. simpl in H1, H2. destruct (base_name_map k2 i2 H2) as [c [Rc [_ Eb]]]. rewrite Eb in E.
+    simpl in E. inversion E as [E']. rewrite !app_assoc_s in E'.
+    apply app_nosep_inj in E'; try tauto; auto using reserved_nosep, code_suffix_tailok, plus_tag_tailok.
+    + destruct E' as [-> _]. tauto.
+    + right. eexists. reflexivity.
+  - intros E. exfalso. simpl in H1, H2. destruct (base_name_map k1 i1 H1) as [c [Rc [_ Eb]]]. rewrite Eb in E.
+    simpl in E. inversion E as [E']. rewrite app_assoc_s in E'.
+    apply app_nosep_inj in E'; try tauto; auto using reserved_nosep, code_suffix_tailok, plus_tag_tailok.
+    destruct E' as [<- _]. tauto.
+  - intros E. exfalso. simpl in H1, H2. destruct (base_name_map k1 i1 H1) as [c [Rc [_ Eb]]]. rewrite Eb in E.
+    simpl in E. inversion E as [E']. rewrite !app_assoc_s in E'.
+    apply app_nosep_inj in E'; try tauto; auto using reserved_nosep, code_suffix_tailok, plus_tag_tailok.
+    + destruct E' as [<- _]. tauto.
+    + right. eexists. reflexivity.
+  (* two mapping components *)
+  - simpl in H1, H2. destruct (base_name_map k1 i1 H1) as [c1 [R1 [C1 B1]]].
+    destruct (base_name_map k2 i2 H2) as [c2 [R2 [C2 B2]]]. rewrite B1, B2. simpl.
+    intros E. inversion E as [E']. rewrite !app_assoc_s in E'.
+    apply app_nosep_inj in E'; auto using reserved_nosep, code_suffix_tailok, plus_tag_tailok.
+    destruct E' as [Ec Es]. subst c2. apply plus_suffix_inj in Es; auto. destruct Es as [Ep Em].
+    rewrite Ep, (coord_name_inj _ _ _ C1 C2). auto.
+Qed.
+
+(* the canonical name only depends on what the symbol identifies *)
+Definition akey_base (k : akey) : res string :=
+  match k with
+  | KFun n => Ok n
+  | KComp n i => Ok (n ++ "_" ++ dec i)
+  | KCoord i p => rmap (fun c => if p then c ++ "_plus" else c) (coord_name i)
+  end.
+Lemma base_name_akey a : base_name a = akey_base (akey_of a).
+Proof. induction a; simpl; auto. Qed.
 
 (* ------------------------------------------------------------------ the naming theorems *)
-(* two chains get the same symbol exactly when component and multi-index coincide *)
+(* two chains over functions / components get the same symbol exactly when component and multi-index coincide *)
 Theorem sym_name_iff ops1 a1 ops2 a2 :
+  funatom0 a1 = true -> funatom0 a2 = true ->
   nosep (fname a1) -> nosep (fname a2) -> pure ops1 = true -> pure ops2 = true ->
   (chain_name ops1 a1 = chain_name ops2 a2 <-> a1 = a2 /\ multi_index ops1 = multi_index ops2).
 Proof.
-  intros H1 H2 P1 P2. rewrite !chain_name_pure by assumption. split.
+  intros F1 F2 H1 H2 P1 P2. rewrite !chain_name_pure by assumption. split.
   - apply spec_name_inj; auto using pure_mi_of.
   - intros [-> ->]. reflexivity.
 Qed.
@@ -405,12 +615,36 @@ Qed.
 (* the same under the sharper pairwise hygiene: names such as u_h are admitted as long as no function of the
    kernel is called like another one followed by '_...' *)
 Theorem sym_name_iff_family ops1 a1 ops2 a2 :
+  funatom0 a1 = true -> funatom0 a2 = true ->
   ~ ext (fname a1) (fname a2) -> ~ ext (fname a2) (fname a1) -> pure ops1 = true -> pure ops2 = true ->
   (chain_name ops1 a1 = chain_name ops2 a2 <-> a1 = a2 /\ multi_index ops1 = multi_index ops2).
 Proof.
-  intros H1 H2 P1 P2. rewrite !chain_name_pure by assumption. split.
+  intros F1 F2 H1 H2 P1 P2. rewrite !chain_name_pure by assumption. split.
   - apply spec_name_inj_family; auto using pure_mi_of.
   - intros [-> ->]. reflexivity.
+Qed.
+
+(* all atoms (functions, components, their restrictions to a side of an interface, mapping components): the same
+   symbol exactly when what the symbol identifies ([akey_of]) and the multi-index coincide *)
+Theorem sym_name_iff_ext ops1 a1 ops2 a2 :
+  hyg a1 -> hyg a2 -> pure ops1 = true -> pure ops2 = true ->
+  (chain_name ops1 a1 = chain_name ops2 a2 <-> akey_of a1 = akey_of a2 /\ multi_index ops1 = multi_index ops2).
+Proof.
+  intros H1 H2 P1 P2. rewrite !chain_name_pure by assumption. split.
+  - apply spec_name_inj_ext; auto using pure_mi_of.
+  - intros [Ea ->]. unfold spec_name. now rewrite !base_name_akey, Ea.
+Qed.
+
+(* a hygienic atom always has a name *)
+Lemma hyg_base_ok a : hyg a -> exists b, base_name a = Ok b.
+Proof.
+  induction a as [n|n i|p a IH|m i]; simpl; intros H; eauto.
+  destruct (coord_name_ok i H) as [c [-> _]]. simpl. eauto.
+Qed.
+Theorem hyg_chain_named ops a : hyg a -> pure ops = true -> exists s, chain_name ops a = Ok s.
+Proof.
+  intros H P. rewrite chain_name_pure by assumption. unfold spec_name.
+  destruct (hyg_base_ok a H) as [b ->]. simpl. eauto.
 Qed.
 
 Lemma count_perm d l l' : Permutation l l' -> count d l = count d l'.
@@ -433,7 +667,7 @@ Qed.
 Lemma pure_perm l l' : Permutation l l' -> pure l = pure l'.
 Proof. intros H. unfold pure. now rewrite (forallb_perm is_phys _ _ H), (forallb_perm is_log _ _ H). Qed.
 
-(* the order of differentiation does not matter (no hygiene needed) *)
+(* the order of differentiation does not matter (no hygiene needed, any atom) *)
 Theorem sym_name_perm ops1 ops2 a :
   Permutation ops1 ops2 -> pure ops1 = true -> chain_name ops1 a = chain_name ops2 a.
 Proof.
@@ -443,40 +677,122 @@ Qed.
 
 (* the symbol of a chain, as produced by SymbolicExpr on the kernel that consists of the chain *)
 Theorem same_symbol_iff ops1 a1 ops2 a2 :
+  funatom0 a1 = true -> funatom0 a2 = true ->
   nosep (fname a1) -> nosep (fname a2) -> pure ops1 = true -> pure ops2 = true ->
   (symbolic (Chain ops1 a1) = symbolic (Chain ops2 a2) <-> a1 = a2 /\ multi_index ops1 = multi_index ops2).
 Proof.
-  intros. simpl. rewrite <- sym_name_iff by eassumption. split; [intros E; now inversion E|intros ->; reflexivity].
+  intros. simpl. rewrite <- sym_name_iff by eassumption. split; [|intros ->; reflexivity].
+  apply rmap_inj. intros x y E. now inversion E.
+Qed.
+Theorem same_symbol_iff_ext ops1 a1 ops2 a2 :
+  hyg a1 -> hyg a2 -> pure ops1 = true -> pure ops2 = true ->
+  (symbolic (Chain ops1 a1) = symbolic (Chain ops2 a2) <->
+   akey_of a1 = akey_of a2 /\ multi_index ops1 = multi_index ops2).
+Proof.
+  intros. simpl. rewrite <- sym_name_iff_ext by eassumption. split; [|intros ->; reflexivity].
+  apply rmap_inj. intros x y E. now inversion E.
 Qed.
 
 (* without hygiene: the function literally named u_x and dx(u);  the function w_0 and the component w[0] *)
 Theorem name_collision_refuted :
-  exists ops1 a1 ops2 a2, pure ops1 = true /\ pure ops2 = true /\
+  exists ops1 a1 ops2 a2, funatom0 a1 = true /\ funatom0 a2 = true /\ pure ops1 = true /\ pure ops2 = true /\
     chain_name ops1 a1 = chain_name ops2 a2 /\ ~ (a1 = a2 /\ multi_index ops1 = multi_index ops2).
 Proof.
   exists [Dx], (FScal "u"), [], (FScal "u_x"). repeat split; try reflexivity. intros [E _]. discriminate.
 Qed.
 Theorem component_collision_refuted :
-  exists a1 a2, a1 <> a2 /\ chain_name [] a1 = chain_name [] a2.
-Proof. exists (FComp "w" 0), (FScal "w_0"). split; [discriminate|reflexivity]. Qed.
+  exists a1 a2, funatom0 a1 = true /\ funatom0 a2 = true /\ a1 <> a2 /\ chain_name [] a1 = chain_name [] a2.
+Proof. exists (FComp "w" 0), (FScal "w_0"). repeat split. discriminate. Qed.
 
 (* hygienic names but a chain that mixes physical and logical operators: the outer code is dropped *)
 Theorem mixed_chain_refuted :
-  exists ops1 ops2 a, nosep (fname a) /\
+  exists ops1 ops2 a, funatom0 a = true /\ nosep (fname a) /\
     chain_name ops1 a = chain_name ops2 a /\ multi_index ops1 <> multi_index ops2.
 Proof. exists [Dx; D1], [D1], (FScal "u"). repeat split; try reflexivity. discriminate. Qed.
 Theorem mixed_order_refuted :
-  exists ops1 ops2 a, nosep (fname a) /\ Permutation ops1 ops2 /\ chain_name ops1 a <> chain_name ops2 a.
+  exists ops1 ops2 a, funatom0 a = true /\ nosep (fname a) /\ Permutation ops1 ops2 /\ chain_name ops1 a <> chain_name ops2 a.
 Proof.
   exists [Dx; D1], [D1; Dx], (FScal "u"). repeat split; try reflexivity; [apply perm_swap|discriminate].
 Qed.
 
+(* ------------------------------------------------------------------ what the symbols of the new atoms forget *)
+(* the side of an interface: minus(u) and plus(u) (both hygienic) share every symbol *)
+Theorem side_collision_refuted :
+  exists a1 a2, hyg a1 /\ hyg a2 /\ a1 <> a2 /\ forall ops, chain_name ops a1 = chain_name ops a2.
+Proof.
+  exists (FSide false (FScal "u")), (FSide true (FScal "u")). repeat split; try discriminate.
+  - intros [H|[H|H]]; discriminate.
+  - intros [H|[H|H]]; discriminate.
+  - intros ops. unfold chain_name. generalize (@None kind) (@None string).
+    induction ops as [|o r IH]; intros cur code; simpl; [reflexivity|].
+    destruct (match cur with Some c => kind_eqb c (kind_of o) | None => false end); apply IH.
+Qed.
+(* ... also against the unrestricted function *)
+Theorem side_collision_plain_refuted :
+  exists a1 a2, hyg a1 /\ hyg a2 /\ a1 <> a2 /\ chain_name [Dx] a1 = chain_name [Dx] a2.
+Proof.
+  exists (FSide false (FScal "u")), (FScal "u"). repeat split; try discriminate;
+    intros [H|[H|H]]; discriminate.
+Qed.
+(* the mapping: M[0] and N[0] of two different mappings, and every derivative of them *)
+Theorem mapping_collision_refuted :
+  exists m1 m2 i, m1 <> m2 /\ hyg (FMap m1 i) /\ hyg (FMap m2 i) /\
+    forall ops, chain_name ops (FMap m1 i) = chain_name ops (FMap m2 i).
+Proof.
+  exists (MPlain "M" SNone), (MPlain "N" SNone), 0. repeat split; try discriminate; try (simpl; lia).
+  intros ops. unfold chain_name. generalize (@None kind) (@None string).
+  induction ops as [|o r IH]; intros cur code; simpl; [reflexivity|].
+  destruct (match cur with Some c => kind_eqb c (kind_of o) | None => false end); apply IH.
+Qed.
+(* the coordinate names are not protected by the separator: a function that is called x (no '_' in it) and M[0] *)
+Theorem coordinate_collision_refuted :
+  exists a1 a2, funatom0 a1 = true /\ nosep (fname a1) /\ hyg a2 /\ akey_of a1 <> akey_of a2 /\
+    chain_name [] a1 = chain_name [] a2 /\ chain_name [D1] a1 = chain_name [D1] a2.
+Proof.
+  exists (FScal "x"), (FMap (MPlain "M" SNone) 0). repeat split; try discriminate. simpl. lia.
+Qed.
+(* ... and the symbol of M[0] is the symbol of the physical coordinate x itself *)
+Theorem coordinate_symbol_refuted :
+  symbolic (Chain [] (FMap (MPlain "M" SNone) 0)) = symbolic (Sym "x").
+Proof. reflexivity. Qed.
+(* a fourth component of a mapping has no name: ValueError('Wrong index'), whatever the chain *)
+Theorem wrong_index_raises ops m i : 3 <= i -> chain_name ops (FMap m i) = Err EValue.
+Proof.
+  intros H. unfold chain_name. generalize (@None kind) (@None string).
+  induction ops as [|o r IH]; intros cur code; simpl.
+  - destruct i as [|[|[|i]]]; try lia. reflexivity.
+  - destruct (match cur with Some c => kind_eqb c (kind_of o) | None => false end); apply IH.
+Qed.
+
+(* geometry atoms: the name is spelled from the name of the mapping *)
+Theorem geo_name_spec g :
+  gatom_name g = match g with
+                 | GMap m => map_name m
+                 | GWvol m => "wvol_" ++ map_name (map_minus m)
+                 | GDet false m => "det_" ++ map_name m
+                 | GDet true m => "det_Jacobian(" ++ map_name m ++ ")"
+                 end.
+Proof. destruct g as [m|m|[|] m]; reflexivity. Qed.
+(* the weighted volume of an interface is the one of its minus side *)
+Theorem geo_wvol_interface a b : gatom_name (GWvol (MIface a b)) = gatom_name (GWvol (MPlain a SMinus)).
+Proof. reflexivity. Qed.
+(* different geometry atoms with one symbol; a geometry atom and a function with one symbol *)
+Theorem geometry_collision_refuted :
+  (exists g1 g2, g1 <> g2 /\ gatom_name g1 = gatom_name g2) /\
+  (exists g a, funatom0 a = true /\ symbolic (Geo g) = symbolic (Chain [] a)).
+Proof.
+  split.
+  - exists (GWvol (MIface "M" "N")), (GWvol (MPlain "M" SNone)). split; [discriminate|reflexivity].
+  - exists (GDet false (MPlain "M" SNone)), (FScal "det_M"). split; reflexivity.
+Qed.
+
 (* ================================================================== SymbolicExpr as a homomorphism *)
-(* a sympy expression in which no terminal expression (function, component, derivative) is left *)
+(* a sympy expression in which no terminal expression (function, component, derivative, interface operator,
+   mapping, geometry atom, pull-back, ...) is left *)
 Fixpoint plainb (e : expr) : bool :=
   match e with
-  | Num _ | Sym _ => true
-  | Vec _ | Chain _ _ | Seq _ => false
+  | Num _ | Sym _ | IBase _ | IdxS _ | ImI => true
+  | Vec _ | Chain _ _ | Seq _ | Side _ _ | Geo _ | PIdx _ _ | PB _ _ _ | Opaque _ => false
   | Add l | Mul l | Fn _ l | Tup l => forallb plainb l
   | Pow b x => plainb b && plainb x
   | Mat _ rows => forallb (forallb plainb) rows
@@ -485,37 +801,72 @@ Fixpoint plainb (e : expr) : bool :=
 (* every exponent is free of terminal expressions *)
 Fixpoint exps_plain (e : expr) : bool :=
   match e with
-  | Num _ | Sym _ | Vec _ | Chain _ _ => true
   | Add l | Mul l | Fn _ l | Tup l | Seq l => forallb exps_plain l
   | Pow b x => exps_plain b && plainb x
   | Mat _ rows => forallb (forallb exps_plain) rows
+  | Side _ x | PB _ _ x => exps_plain x
+  | _ => true
   end.
 
-(* the homomorphic extension of a renaming of the terminal expressions (what substitution does) *)
-Fixpoint subst (sigma : list dop -> fatom -> string) (e : expr) : expr :=
+(* Pow lifted to outcomes: the base is translated first *)
+Definition rpow (rb rx : res expr) : res expr := rbind rb (fun b' => rmap (Pow b') rx).
+
+(* the homomorphic extension of a renaming of the chains (what substitution does): every named atom is replaced
+   by its symbol, interface operators and pull-backs are transparent, the first object without a translation
+   decides the exception *)
+Fixpoint subst (sigma : list dop -> fatom -> res string) (e : expr) : res expr :=
   match e with
-  | Num s => Num s
-  | Sym s => Sym s
-  | Vec n => Sym n
-  | Chain ops a => Sym (sigma ops a)
-  | Add l => Add (map (subst sigma) l)
-  | Mul l => Mul (map (subst sigma) l)
-  | Pow b x => Pow (subst sigma b) (subst sigma x)
-  | Fn f l => Fn f (map (subst sigma) l)
-  | Tup l => Tup (map (subst sigma) l)
-  | Seq l => Tup (map (subst sigma) l)
-  | Mat imm rows => Mat imm (map (map (subst sigma)) rows)
+  | Num s => Ok (Num s)
+  | Sym s => Ok (Sym s)
+  | IBase s => Ok (IBase s)
+  | IdxS s => Ok (IdxS s)
+  | ImI => Ok ImI
+  | Vec n => Ok (Sym n)
+  | Chain ops a => rmap Sym (sigma ops a)
+  | Geo g => Ok (Sym (gatom_name g))
+  | PIdx b i => Ok (Sym (b ++ "_" ++ i))
+  | Add l => rmap Add (mapM (subst sigma) l)
+  | Mul l => rmap Mul (mapM (subst sigma) l)
+  | Pow b x => rpow (subst sigma b) (subst sigma x)
+  | Fn f l => rmap (Fn f) (mapM (subst sigma) l)
+  | Tup l => rmap Tup (mapM (subst sigma) l)
+  | Seq l => rmap Tup (mapM (subst sigma) l)
+  | Mat imm rows => rmap (Mat imm) (mapM (mapM (subst sigma)) rows)
+  | Side _ x => subst sigma x
+  | PB _ _ x => subst sigma x
+  | Opaque _ => Err ENotImpl
   end.
 
-Lemma symbolic_add l : symbolic (Add l) = Add (map symbolic l).
+Lemma symbolic_add l : symbolic (Add l) = rmap Add (mapM symbolic l).
 Proof. reflexivity. Qed.
-Lemma symbolic_mul l : symbolic (Mul l) = Mul (map symbolic l).
+Lemma symbolic_mul l : symbolic (Mul l) = rmap Mul (mapM symbolic l).
 Proof. reflexivity. Qed.
-Lemma symbolic_fn f l : symbolic (Fn f l) = Fn f (map symbolic l).
+Lemma symbolic_fn f l : symbolic (Fn f l) = rmap (Fn f) (mapM symbolic l).
 Proof. reflexivity. Qed.
-Lemma symbolic_tuple l : symbolic (Tup l) = Tup (map symbolic l) /\ symbolic (Seq l) = Tup (map symbolic l).
+Lemma symbolic_tuple l : symbolic (Tup l) = rmap Tup (mapM symbolic l) /\ symbolic (Seq l) = rmap Tup (mapM symbolic l).
 Proof. split; reflexivity. Qed.
-Lemma symbolic_matrix imm rows : symbolic (Mat imm rows) = Mat imm (map (map symbolic) rows).
+Lemma symbolic_matrix imm rows : symbolic (Mat imm rows) = rmap (Mat imm) (mapM (mapM symbolic) rows).
+Proof. reflexivity. Qed.
+(* interface operators and pull-backs are transparent *)
+Lemma symbolic_side p e : symbolic (Side p e) = symbolic e.
+Proof. reflexivity. Qed.
+Lemma symbolic_pullback f v e : symbolic (PB f v e) = symbolic e.
+Proof. reflexivity. Qed.
+Lemma symbolic_side_atom p ops a : symbolic (Chain ops (FSide p a)) = symbolic (Chain ops a).
+Proof.
+  simpl. f_equal. unfold chain_name. generalize (@None kind) (@None string).
+  induction ops as [|o r IH]; intros cur code; simpl; [reflexivity|].
+  destruct (match cur with Some c => kind_eqb c (kind_of o) | None => false end); apply IH.
+Qed.
+(* plain sympy atoms are passed through *)
+Lemma symbolic_passthrough :
+  (forall s, symbolic (Sym s) = Ok (Sym s)) /\ (forall s, symbolic (IBase s) = Ok (IBase s)) /\
+  (forall s, symbolic (IdxS s) = Ok (IdxS s)) /\ symbolic ImI = Ok ImI /\ (forall s, symbolic (Num s) = Ok (Num s)).
+Proof. repeat split. Qed.
+(* geometry atoms become the symbol with their name; anything without an arm raises NotImplementedError *)
+Lemma symbolic_geo g : symbolic (Geo g) = Ok (Sym (gatom_name g)).
+Proof. destruct g; reflexivity. Qed.
+Lemma symbolic_opaque b : symbolic (Opaque b) = Err ENotImpl.
 Proof. reflexivity. Qed.
 
 Lemma map_id_Forall {A} (f : A -> A) l : Forall (fun x => f x = x) l -> map f l = l.
@@ -530,29 +881,32 @@ Proof.
   induction 1; simpl; intros H'; constructor; apply andb_true_iff in H'; destruct H'; auto.
 Qed.
 
-Lemma subst_plain sigma e : plainb e = true -> subst sigma e = e.
+Lemma subst_plain sigma e : plainb e = true -> subst sigma e = Ok e.
 Proof.
   induction e using expr_ind'; simpl; intros Hp; try reflexivity; try discriminate;
-    try (f_equal; apply map_id_Forall; eapply Forall_impl_forallb; eassumption).
-  - apply andb_true_iff in Hp. destruct Hp. f_equal; auto.
-  - f_equal. apply map_id_Forall.
-    assert (K : Forall (fun r => forallb plainb r = true -> map (subst sigma) r = r) rows).
-    { eapply Forall_impl; [|exact H]. intros r Hr Hpr. apply map_id_Forall.
+    try (rewrite mapM_id_Forall; [reflexivity|]; eapply Forall_impl_forallb; eassumption).
+  - apply andb_true_iff in Hp. destruct Hp. rewrite IHe1, IHe2 by assumption. reflexivity.
+  - rewrite mapM_id_Forall; [reflexivity|].
+    assert (K : Forall (fun r => forallb plainb r = true -> mapM (subst sigma) r = Ok r) rows).
+    { eapply Forall_impl; [|exact H]. intros r Hr Hpr. apply mapM_id_Forall.
       eapply Forall_impl_forallb; eassumption. }
     eapply Forall_impl_forallb; eassumption.
 Qed.
 
-(* SymbolicExpr is the homomorphic extension of chain -> symbol, provided no exponent contains a terminal *)
+(* SymbolicExpr (before 1e5436c) is the homomorphic extension of chain -> symbol, provided no exponent contains
+   a terminal *)
 Theorem symbolic_is_subst e : exps_plain e = true -> symbolic e = subst chain_name e.
 Proof.
-  induction e using expr_ind'; simpl; intros Hp; try reflexivity;
-    try (f_equal; apply map_ext_Forall; eapply Forall_impl_forallb; eassumption).
-  - apply andb_true_iff in Hp. destruct Hp as [Hb Hx]. rewrite (subst_plain _ _ Hx). f_equal; auto.
-  - f_equal. apply map_ext_Forall.
-    assert (K : Forall (fun r => forallb exps_plain r = true -> map symbolic r = map (subst chain_name) r) rows).
-    { eapply Forall_impl; [|exact H]. intros r Hr Hpr. apply map_ext_Forall.
+  induction e using expr_ind'; simpl; intros Hp; try reflexivity; auto;
+    try (f_equal; apply mapM_ext_Forall; eapply Forall_impl_forallb; eassumption).
+  - apply andb_true_iff in Hp. destruct Hp as [Hb Hx]. rewrite (subst_plain _ _ Hx), IHe1 by assumption.
+    unfold rpow. destruct (subst chain_name e1); reflexivity.
+  - f_equal. apply mapM_ext_Forall.
+    assert (K : Forall (fun r => forallb exps_plain r = true -> mapM symbolic r = mapM (subst chain_name) r) rows).
+    { eapply Forall_impl; [|exact H]. intros r Hr Hpr. apply mapM_ext_Forall.
       eapply Forall_impl_forallb; eassumption. }
     eapply Forall_impl_forallb; eassumption.
+  - destruct g; reflexivity.
 Qed.
 
 Lemma forallb_map {A B} (p : B -> bool) (f : A -> B) l : forallb p (map f l) = forallb (fun x => p (f x)) l.
@@ -561,37 +915,52 @@ Proof. induction l; simpl; congruence. Qed.
 Lemma forallb_Forall_true {A} (p : A -> bool) l : Forall (fun x => p x = true) l -> forallb p l = true.
 Proof. induction 1; simpl; auto. rewrite H. auto. Qed.
 
-Lemma subst_plainb sigma e : plainb (subst sigma e) = true.
+Lemma mapM_plain {A} (f : A -> res expr) l ys :
+  Forall (fun x => forall y, f x = Ok y -> plainb y = true) l -> mapM f l = Ok ys -> forallb plainb ys = true.
 Proof.
-  induction e using expr_ind'; simpl; try reflexivity;
-    try (rewrite forallb_map; apply forallb_Forall_true; assumption).
-  - now rewrite IHe1, IHe2.
-  - rewrite forallb_map. apply forallb_Forall_true. eapply Forall_impl; [|exact H].
-    intros r Hr. rewrite forallb_map. now apply forallb_Forall_true.
+  intros HF E. apply mapM_ok in E. induction E as [|x y l ys Hxy E IH]; simpl; [reflexivity|].
+  inversion HF as [|? ? Hx Hl]; subst. rewrite (Hx _ Hxy), IH by assumption. reflexivity.
+Qed.
+
+(* whenever the substitution succeeds, nothing terminal is left *)
+Lemma subst_plainb sigma e : forall r, subst sigma e = Ok r -> plainb r = true.
+Proof.
+  induction e using expr_ind'; simpl; intros r E; try (inversion E; reflexivity); try discriminate; auto;
+    try (apply rmap_ok in E; destruct E as [ys [E ->]]; simpl; eapply mapM_plain; eassumption).
+  - apply rmap_ok in E. destruct E as [s [_ ->]]. reflexivity.
+  - unfold rpow in E. destruct (subst sigma e1) as [b'|] eqn:E1; [|discriminate]. simpl in E.
+    apply rmap_ok in E. destruct E as [x' [E2 ->]]. simpl. rewrite (IHe1 _ eq_refl), (IHe2 _ E2). reflexivity.
+  - apply rmap_ok in E. destruct E as [ys [E ->]]. simpl. apply mapM_ok in E.
+    induction E as [|x y l ys Hxy E IH]; simpl; [reflexivity|]. inversion H as [|? ? Hx Hl]; subst.
+    rewrite IH by assumption. rewrite (mapM_plain _ _ _ Hx Hxy). reflexivity.
 Qed.
 
 (* ... and then the result contains plain symbols only *)
-Theorem symbolic_plain e : exps_plain e = true -> plainb (symbolic e) = true.
-Proof. intros H. rewrite (symbolic_is_subst _ H). apply subst_plainb. Qed.
+Theorem symbolic_plain e r : exps_plain e = true -> symbolic e = Ok r -> plainb r = true.
+Proof. intros H E. rewrite (symbolic_is_subst _ H) in E. eapply subst_plainb; eauto. Qed.
 
-Theorem symbolic_pow_const b x : plainb x = true -> symbolic (Pow b x) = Pow (symbolic b) (symbolic x).
+Lemma plain_exps_plain x : plainb x = true -> exps_plain x = true.
 Proof.
-  intros H. simpl. f_equal. assert (E : exps_plain x = true).
-  { clear b. induction x using expr_ind'; simpl in *; try reflexivity; try discriminate;
-      try (apply forallb_Forall_true; eapply Forall_impl_forallb; eassumption).
-    - apply andb_true_iff in H. destruct H as [H1 H2]. now rewrite IHx1.
-    - apply forallb_Forall_true.
-      assert (K : Forall (fun r => forallb plainb r = true -> forallb exps_plain r = true) rows).
-      { eapply Forall_impl; [|exact H0]. intros r Hr Hpr. apply forallb_Forall_true.
-        eapply Forall_impl_forallb; eassumption. }
+  induction x using expr_ind'; simpl in *; intros Hp; try reflexivity; try discriminate;
+    try (apply forallb_Forall_true; eapply Forall_impl_forallb; eassumption).
+  - apply andb_true_iff in Hp. destruct Hp as [H1 H2]. now rewrite IHx1.
+  - apply forallb_Forall_true.
+    assert (K : Forall (fun r => forallb plainb r = true -> forallb exps_plain r = true) rows).
+    { eapply Forall_impl; [|exact H]. intros r Hr Hpr. apply forallb_Forall_true.
       eapply Forall_impl_forallb; eassumption. }
-  rewrite (symbolic_is_subst _ E). symmetry. now apply subst_plain.
+    eapply Forall_impl_forallb; eassumption.
+Qed.
+
+Theorem symbolic_pow_const b x : plainb x = true -> symbolic (Pow b x) = rpow (symbolic b) (symbolic x).
+Proof.
+  intros H. simpl. rewrite (symbolic_is_subst x (plain_exps_plain _ H)), (subst_plain _ _ H).
+  unfold rpow. destruct (symbolic b); reflexivity.
 Qed.
 
 (* the exponent is passed through untranslated: 2**dx(u) *)
 Theorem symbolic_pow_refuted :
-  exists b x, symbolic (Pow b x) <> Pow (symbolic b) (symbolic x) /\ plainb (symbolic (Pow b x)) = false.
-Proof. exists (Num "2"), (Chain [Dx] (FScal "u")). split; [discriminate|reflexivity]. Qed.
+  exists b x r, symbolic (Pow b x) <> rpow (symbolic b) (symbolic x) /\ symbolic (Pow b x) = Ok r /\ plainb r = false.
+Proof. exists (Num "2"), (Chain [Dx] (FScal "u")). eexists. split; [discriminate|split; reflexivity]. Qed.
 
 (* ================================================================== maximal orders *)
 (* every derivative chain occurring anywhere in a kernel *)
@@ -601,15 +970,18 @@ Fixpoint chains_of (e : expr) : list chain :=
   | Add l | Mul l | Fn _ l | Tup l | Seq l => flat_map chains_of l
   | Pow b x => chains_of b ++ chains_of x
   | Mat _ rows => flat_map (flat_map chains_of) rows
-  | _ => []
+  | Side _ x => chains_of x
+  | _ => []                                    (* the .expr of a pull-back is no argument of it *)
   end.
 
-(* which chains a query is about: all / those of one function atom / those of the components of a vector function *)
+(* which chains a query is about: all chains over functions and components (a chain over a mapping component is no
+   derivative of a function) / those of one function atom / those of the components of a vector function.  A
+   function restricted to one side of an interface is still that function. *)
 Definition qmatch (q : option query) (c : chain) : bool :=
   match q with
-  | None => true
-  | Some (QAtom f) => fatom_eqb (snd c) f
-  | Some (QVec n) => match snd c with FComp m _ => String.eqb m n | FScal _ => false end
+  | None => funatom (snd c)
+  | Some (QAtom f) => fatom_eqb (snd c) f || fatom_eqb (unside (snd c)) f
+  | Some (QVec n) => match unside (snd c) with FComp m _ => String.eqb m n | _ => false end
   end.
 
 (* the true maximal order in direction d *)
@@ -623,6 +995,7 @@ Fixpoint chain_free (e : expr) : bool :=
   | Add l | Mul l | Fn _ l | Tup l | Seq l => forallb chain_free l
   | Pow b x => chain_free b && chain_free x
   | Mat _ rows => forallb (forallb chain_free) rows
+  | Side _ x => chain_free x
   | _ => true
   end.
 Fixpoint entered (e : expr) : bool :=
@@ -631,9 +1004,13 @@ Fixpoint entered (e : expr) : bool :=
   | Pow b x => entered b && chain_free x
   | Fn _ l => forallb chain_free l
   | Mat _ rows => forallb (forallb chain_free) rows
+  | Side _ x => chain_free x
   | _ => true
   end.
 Definition pure_chains (e : expr) : bool := forallb (fun c : chain => pure (fst c)) (chains_of e).
+(* no chain of the kernel is over a function restricted to a side of an interface *)
+Definition sided (a : fatom) : bool := match a with FSide _ _ => true | _ => false end.
+Definition unsided_chains (e : expr) : bool := forallb (fun c : chain => negb (sided (snd c))) (chains_of e).
 
 (* ------------------------------------------------------------------ list facts *)
 Lemma list_max_In x l : In x l -> x <= list_max l.
@@ -694,6 +1071,7 @@ Proof.
     apply andb_true_iff in Hc. destruct Hc as [H1 H2]. rewrite IH by assumption. rewrite app_nil_r.
     clear IH Hrows H2. induction Hr; simpl in *; [reflexivity|]. apply andb_true_iff in H1. destruct H1 as [H1 H3].
     rewrite H by assumption. simpl. auto.
+  - auto.
 Qed.
 
 (* soundness of the traversal: whatever it returns is a chain of the kernel *)
@@ -731,6 +1109,7 @@ Proof.
   - exfalso. apply in_flat_map_flat_map in Hc. destruct Hc as [r [x [Hr [Hx Hc]]]].
     rewrite forallb_forall in He. specialize (He r Hr). rewrite forallb_forall in He.
     rewrite (chain_free_no_chains x (He x Hx)) in Hc. contradiction.
+  - rewrite (chain_free_no_chains _ He) in Hc. contradiction.
 Qed.
 
 Lemma chains_nonempty e c : In c (chains_of e) -> fst c <> [].
@@ -745,13 +1124,42 @@ Proof.
   - apply in_flat_map in Hc. destruct Hc as [x [Hx Hc]]. rewrite Forall_forall in H. eauto.
   - apply in_flat_map_flat_map in Hc. destruct Hc as [r [x [Hr [Hx Hc]]]].
     rewrite Forall_forall in H. specialize (H r Hr). rewrite Forall_forall in H. eauto.
+  - auto.
 Qed.
 
-(* the atom of every chain is among expr.atoms(...) *)
-Lemma chains_atoms e c : In c (chains_of e) -> In (QAtom (snd c)) (atoms_of e).
+Lemma fatoms_unside a : funatom a = true -> In (QAtom (unside a)) (fatoms a).
+Proof. induction a; simpl; auto; discriminate. Qed.
+
+(* expr.atoms(...) only yields plain functions, components and vector functions *)
+Definition qplain (q : query) : bool := match q with QAtom a => funatom0 a | QVec _ => true end.
+Lemma fatoms_plain a q : In q (fatoms a) -> qplain q = true.
 Proof.
-  induction e using expr_ind'; simpl; intros Hc; try contradiction.
-  - destruct ops; simpl in Hc; [contradiction|]. destruct Hc as [<-|[]]. simpl. destruct a; simpl; auto.
+  induction a; simpl; intros H; auto; try contradiction.
+  - destruct H as [<-|[]]. reflexivity.
+  - destruct H as [<-|[<-|[]]]; reflexivity.
+Qed.
+Lemma atoms_of_plain e q : In q (atoms_of e) -> qplain q = true.
+Proof.
+  induction e using expr_ind'; simpl; intros Hq; try contradiction.
+  - destruct Hq as [<-|[]]. reflexivity.
+  - eapply fatoms_plain; eauto.
+  - apply in_flat_map in Hq. destruct Hq as [x [Hx Hq]]. rewrite Forall_forall in H. eauto.
+  - apply in_flat_map in Hq. destruct Hq as [x [Hx Hq]]. rewrite Forall_forall in H. eauto.
+  - apply in_app_or in Hq. tauto.
+  - apply in_flat_map in Hq. destruct Hq as [x [Hx Hq]]. rewrite Forall_forall in H. eauto.
+  - apply in_flat_map in Hq. destruct Hq as [x [Hx Hq]]. rewrite Forall_forall in H. eauto.
+  - apply in_flat_map in Hq. destruct Hq as [x [Hx Hq]]. rewrite Forall_forall in H. eauto.
+  - apply in_flat_map_flat_map in Hq. destruct Hq as [r [x [Hr [Hx Hq]]]].
+    rewrite Forall_forall in H. specialize (H r Hr). rewrite Forall_forall in H. eauto.
+  - auto.
+  - destruct Hq as [<-|[]]. destruct v; reflexivity.
+Qed.
+
+(* the function under every chain over a function is among expr.atoms(...) *)
+Lemma chains_atoms e c : In c (chains_of e) -> funatom (snd c) = true -> In (QAtom (unside (snd c))) (atoms_of e).
+Proof.
+  induction e using expr_ind'; simpl; intros Hc Hf; try contradiction.
+  - destruct ops; simpl in Hc; [contradiction|]. destruct Hc as [<-|[]]. simpl in *. now apply fatoms_unside.
   - apply in_flat_map in Hc. destruct Hc as [x [Hx Hc]]. apply in_flat_map. exists x. rewrite Forall_forall in H. auto.
   - apply in_flat_map in Hc. destruct Hc as [x [Hx Hc]]. apply in_flat_map. exists x. rewrite Forall_forall in H. auto.
   - apply in_app_or in Hc. apply in_or_app. tauto.
@@ -760,6 +1168,7 @@ Proof.
   - apply in_flat_map in Hc. destruct Hc as [x [Hx Hc]]. apply in_flat_map. exists x. rewrite Forall_forall in H. auto.
   - apply in_flat_map_flat_map in Hc. destruct Hc as [r [x [Hr [Hx Hc]]]]. apply in_flat_map_flat_map.
     exists r, x. rewrite Forall_forall in H. specialize (H r Hr). rewrite Forall_forall in H. auto.
+  - auto.
 Qed.
 
 (* sort_partial_derivatives only reorders *)
@@ -775,11 +1184,24 @@ Proof.
     + apply filter_In. split; auto. apply Nat.eqb_refl.
 Qed.
 
-Lemma fatom_eqb_eq a b : fatom_eqb a b = true <-> a = b.
+Lemma mapping_eqb_eq a b : mapping_eqb a b = true <-> a = b.
 Proof.
-  destruct a, b; simpl; try (split; [discriminate|congruence]).
+  destruct a as [n s|a1 b1], b as [m t|a2 b2]; simpl; try (split; [discriminate|congruence]).
+  - rewrite andb_true_iff, String.eqb_eq. split.
+    + intros [-> H]. destruct s, t; simpl in H; try discriminate; reflexivity.
+    + intros E. inversion E. subst. split; [reflexivity|]. destruct t; reflexivity.
+  - rewrite andb_true_iff, !String.eqb_eq. split; [intros [-> ->]; reflexivity|intros E; inversion E; auto].
+Qed.
+
+Lemma fatom_eqb_eq a : forall b, fatom_eqb a b = true <-> a = b.
+Proof.
+  induction a as [n|n i|p a IH|m i]; intros [n'|n' i'|p' a'|m' i']; simpl; try (split; [discriminate|congruence]).
   - rewrite String.eqb_eq. split; congruence.
   - rewrite andb_true_iff, String.eqb_eq, Nat.eqb_eq. split; [intros []|intros E; inversion E]; subst; auto.
+  - rewrite andb_true_iff, IH. split.
+    + intros [Hp ->]. apply Bool.eqb_prop in Hp. now subst.
+    + intros E. inversion E. subst. split; [apply Bool.eqb_reflx|reflexivity].
+  - rewrite andb_true_iff, mapping_eqb_eq, Nat.eqb_eq. split; [intros []|intros E; inversion E]; subst; auto.
 Qed.
 
 Lemma strip_phys_nil ops : strip_phys ops = [] <-> forallb is_phys ops = true.
@@ -842,8 +1264,14 @@ Proof. destruct q; simpl; [congruence|]. destruct (is_pyseq e); congruence. Qed.
 Lemma get_max_log_some e q t : get_max_log e q = Some t -> t = max3 (reported_log e q).
 Proof. destruct q; simpl; [congruence|]. destruct (is_pyseq e); congruence. Qed.
 
-Lemma qmatch_atom q c : (q = None \/ q = Some (QAtom (snd c))) -> qmatch q c = true.
-Proof. intros [->| ->]; simpl; [reflexivity|]. now apply fatom_eqb_eq. Qed.
+Lemma funatom0_funatom a : funatom0 a = true -> funatom a = true.
+Proof. destruct a; simpl; auto; discriminate. Qed.
+Lemma unside_unsided a : sided a = false -> unside a = a.
+Proof. destruct a; simpl; auto; discriminate. Qed.
+Lemma fatom_eqb_refl a : fatom_eqb a a = true.
+Proof. now apply fatom_eqb_eq. Qed.
+Lemma qmatch_own_atom c : qmatch (Some (QAtom (snd c))) c = true.
+Proof. simpl. now rewrite fatom_eqb_refl. Qed.
 
 (* every reported dictionary is the index of a chain of the kernel that the query is about *)
 Lemma reported_phys_sound e q t :
@@ -852,9 +1280,10 @@ Lemma reported_phys_sound e q t :
 Proof.
   destruct q as [f|]; simpl.
   - intros H. apply index_atom_phys_In in H. destruct H as [c [Hc [_ [Hq ->]]]].
-    exists c. repeat split; [now apply find_pd_sub|]. subst f. now apply fatom_eqb_eq.
-  - intros H. apply in_flat_map in H. destruct H as [f [_ H]]. apply index_atom_phys_In in H.
-    destruct H as [c [Hc [_ [_ ->]]]]. exists c. repeat split. now apply find_pd_sub.
+    exists c. repeat split; [now apply find_pd_sub|]. subst f. apply qmatch_own_atom.
+  - intros H. apply in_flat_map in H. destruct H as [f [Hf H]]. apply index_atom_phys_In in H.
+    destruct H as [c [Hc [_ [Hq ->]]]]. exists c. repeat split; [now apply find_pd_sub|].
+    subst f. apply atoms_of_plain in Hf. now apply funatom0_funatom.
 Qed.
 Lemma reported_log_sound e q t :
   In t (reported_log e q) ->
@@ -862,36 +1291,43 @@ Lemma reported_log_sound e q t :
 Proof.
   destruct q as [f|]; simpl.
   - intros H. apply index_atom_log_In in H. destruct H as [c [Hc [_ [Hq ->]]]].
-    exists c. repeat split; [now apply find_pd_sub|]. subst f. now apply fatom_eqb_eq.
-  - intros H. apply in_flat_map in H. destruct H as [f [_ H]]. apply index_atom_log_In in H.
-    destruct H as [c [Hc [_ [_ ->]]]]. exists c. repeat split. now apply find_pd_sub.
+    exists c. repeat split; [now apply find_pd_sub|]. subst f. apply qmatch_own_atom.
+  - intros H. apply in_flat_map in H. destruct H as [f [Hf H]]. apply index_atom_log_In in H.
+    destruct H as [c [Hc [_ [Hq ->]]]]. exists c. repeat split; [now apply find_pd_sub|].
+    subst f. apply atoms_of_plain in Hf. now apply funatom0_funatom.
 Qed.
 
 Definition novec (q : option query) : Prop := forall n, q <> Some (QVec n).
 
-Lemma qmatch_novec q c : novec q -> qmatch q c = true -> q = None \/ q = Some (QAtom (snd c)).
+Lemma qmatch_novec q c :
+  novec q -> sided (snd c) = false -> qmatch q c = true ->
+  (q = None /\ funatom (snd c) = true) \/ q = Some (QAtom (snd c)).
 Proof.
-  destruct q as [[f|n]|]; simpl; intros Hn H; auto.
-  - right. apply fatom_eqb_eq in H. now subst.
+  destruct q as [[f|n]|]; simpl; intros Hn Hs H; auto.
+  - right. rewrite (unside_unsided _ Hs), orb_diag in H. apply fatom_eqb_eq in H. now subst.
   - exfalso. now apply (Hn n).
 Qed.
 
 (* on the entered fragment with pure chains, every chain the query is about is reported *)
 Lemma reported_phys_complete e q c :
-  entered e = true -> novec q -> In c (chains_of e) -> qmatch q c = true -> forallb is_phys (fst c) = true ->
+  entered e = true -> novec q -> sided (snd c) = false ->
+  In c (chains_of e) -> qmatch q c = true -> forallb is_phys (fst c) = true ->
   In (phys_index (fst c)) (reported_phys e q).
 Proof.
-  intros He Hn Hc Hq Hp. apply qmatch_novec in Hq; auto. destruct Hq as [-> | ->]; simpl.
-  - apply in_flat_map. exists (QAtom (snd c)). split; [now apply chains_atoms|].
+  intros He Hn Hs Hc Hq Hp. apply qmatch_novec in Hq; auto. destruct Hq as [[-> Hf] | ->]; simpl.
+  - apply in_flat_map. exists (QAtom (snd c)). split.
+    { rewrite <- (unside_unsided _ Hs) at 1. now apply chains_atoms. }
     apply index_atom_phys_In. exists c. repeat split; auto. now apply find_pd_complete.
   - apply index_atom_phys_In. exists c. repeat split; auto. now apply find_pd_complete.
 Qed.
 Lemma reported_log_complete e q c :
-  entered e = true -> novec q -> In c (chains_of e) -> qmatch q c = true -> forallb is_log (fst c) = true ->
+  entered e = true -> novec q -> sided (snd c) = false ->
+  In c (chains_of e) -> qmatch q c = true -> forallb is_log (fst c) = true ->
   In (log_index (fst c)) (reported_log e q).
 Proof.
-  intros He Hn Hc Hq Hp. apply qmatch_novec in Hq; auto. destruct Hq as [-> | ->]; simpl.
-  - apply in_flat_map. exists (QAtom (snd c)). split; [now apply chains_atoms|].
+  intros He Hn Hs Hc Hq Hp. apply qmatch_novec in Hq; auto. destruct Hq as [[-> Hf] | ->]; simpl.
+  - apply in_flat_map. exists (QAtom (snd c)). split.
+    { rewrite <- (unside_unsided _ Hs) at 1. now apply chains_atoms. }
     apply index_atom_log_In. exists c. repeat split; auto. now apply find_pd_complete.
   - apply index_atom_log_In. exists c. repeat split; auto. now apply find_pd_complete.
 Qed.
@@ -948,10 +1384,10 @@ Qed.
 
 (* exact on the fragment the traversal enters, for pure chains and a query that is not a VectorFunction *)
 Theorem max_phys_exact e q t d :
-  entered e = true -> pure_chains e = true -> novec q ->
+  entered e = true -> pure_chains e = true -> unsided_chains e = true -> novec q ->
   get_max_phys e q = Some t -> is_phys d = true -> proj_of d t = true_max d e q.
 Proof.
-  intros He Hp Hn H Hd. apply Nat.le_antisymm; [eapply max_phys_le_true; eauto|].
+  intros He Hp Hu Hn H Hd. apply Nat.le_antisymm; [eapply max_phys_le_true; eauto|].
   apply get_max_phys_some in H. subst t. rewrite proj_max3. unfold true_max.
   apply list_max_le_ex. intros x Hx. apply in_map_iff in Hx. destruct Hx as [c [<- Hc]].
   apply filter_In in Hc. destruct Hc as [Hc Hq].
@@ -959,13 +1395,14 @@ Proof.
   unfold pure_chains in Hp. rewrite forallb_forall in Hp. specialize (Hp c Hc).
   assert (Hall : forallb is_phys (fst c) = true) by (eapply pure_with_phys; eauto using count_pos_In).
   exists (proj_of d (phys_index (fst c))). split; [|rewrite proj_phys by assumption; lia].
-  apply in_map. now apply reported_phys_complete.
+  apply in_map. apply reported_phys_complete; auto.
+  unfold unsided_chains in Hu. rewrite forallb_forall in Hu. specialize (Hu c Hc). now apply negb_true_iff in Hu.
 Qed.
 Theorem max_log_exact e q t d :
-  entered e = true -> pure_chains e = true -> novec q ->
+  entered e = true -> pure_chains e = true -> unsided_chains e = true -> novec q ->
   get_max_log e q = Some t -> is_log d = true -> proj_of d t = true_max d e q.
 Proof.
-  intros He Hp Hn H Hd. apply Nat.le_antisymm; [eapply max_log_le_true; eauto|].
+  intros He Hp Hu Hn H Hd. apply Nat.le_antisymm; [eapply max_log_le_true; eauto|].
   apply get_max_log_some in H. subst t. rewrite proj_max3. unfold true_max.
   apply list_max_le_ex. intros x Hx. apply in_map_iff in Hx. destruct Hx as [c [<- Hc]].
   apply filter_In in Hc. destruct Hc as [Hc Hq].
@@ -973,7 +1410,8 @@ Proof.
   unfold pure_chains in Hp. rewrite forallb_forall in Hp. specialize (Hp c Hc).
   assert (Hall : forallb is_log (fst c) = true) by (eapply pure_with_log; eauto using count_pos_In).
   exists (proj_of d (log_index (fst c))). split; [|rewrite proj_log by assumption; lia].
-  apply in_map. now apply reported_log_complete.
+  apply in_map. apply reported_log_complete; auto.
+  unfold unsided_chains in Hu. rewrite forallb_forall in Hu. specialize (Hu c Hc). now apply negb_true_iff in Hu.
 Qed.
 
 (* a report is refused only for a python list/tuple without F *)
@@ -1006,14 +1444,29 @@ Theorem max_vector_query_refuted :
     get_max_phys e (Some q) = Some (0, 0, 0) /\ true_max Dx e (Some q) = 1.
 Proof. exists (Chain [Dx] (FComp "w" 0)), (QVec "w"). repeat split. Qed.
 
+(* the side of an interface: dx(minus(u)) is found but not counted, overall and for F = u; also with the repairs
+   ea and vq of the current code *)
+Theorem max_side_refuted :
+  exists e, entered e = true /\ pure_chains e = true /\
+    get_max_phys e None = Some (0, 0, 0) /\ get_max_phys e (Some (QAtom u)) = Some (0, 0, 0) /\
+    get_max_phys_g true true false e None = Some (0, 0, 0) /\
+    true_max Dx e None = 1 /\ true_max Dx e (Some (QAtom u)) = 1.
+Proof. exists (Chain [Dx] (FSide false u)). repeat split. Qed.
+(* chains over mapping components are no derivatives of a function: they are neither reported nor counted *)
+Example max_mapping_chain_not_counted :
+  let k := Mul [Chain [D1; D1] (FMap (MPlain "M" SNone) 0); Chain [D1] u] in
+  get_max_log_g true true true k None = Some (1, 0, 0) /\ true_max D1 k None = 1 /\
+  find_pd_g true k = [([D1; D1], FMap (MPlain "M" SNone) 0); ([D1], u)].
+Proof. repeat split. Qed.
+
 (* ================================================================== the functions with the proposed repairs *)
-(* all flags false: the functions of the current code *)
+(* all flags false: the functions of the original code *)
 Lemma symbolic_g_false e : symbolic_g false e = symbolic e.
 Proof.
-  induction e using expr_ind'; simpl; try reflexivity;
-    try (f_equal; apply map_ext_Forall; assumption).
-  - now rewrite IHe1.
-  - f_equal. apply map_ext_Forall. eapply Forall_impl; [|exact H]. intros r Hr. now apply map_ext_Forall.
+  induction e using expr_ind'; simpl; try reflexivity; auto;
+    try (f_equal; apply mapM_ext_Forall; assumption).
+  - rewrite IHe1. destruct (symbolic e1); reflexivity.
+  - f_equal. apply mapM_ext_Forall. eapply Forall_impl; [|exact H]. intros r Hr. now apply mapM_ext_Forall.
 Qed.
 
 Lemma flat_map_ext_Forall {A B} (f g : A -> list B) l :
@@ -1026,14 +1479,15 @@ Proof.
   assumption.
 Qed.
 
-Lemma match_q_g_false rest a q : match_q_g false rest a q = match_q rest a q.
-Proof. destruct q; reflexivity. Qed.
+Lemma match_q_g_false rest a q : match_q_g false false rest a q = match_q rest a q.
+Proof. destruct q; simpl; [|reflexivity]. destruct rest; [apply orb_diag|reflexivity]. Qed.
 
 Lemma flat_map_ext_all {A B} (f g : A -> list B) l : (forall x, f x = g x) -> flat_map f l = flat_map g l.
 Proof. intros H. induction l; simpl; congruence. Qed.
 
 Lemma index_atom_g_false e q :
-  index_atom_phys_g false false e q = index_atom_phys e q /\ index_atom_log_g false false e q = index_atom_log e q.
+  index_atom_phys_g false false false e q = index_atom_phys e q /\
+  index_atom_log_g false false false e q = index_atom_log e q.
 Proof.
   unfold index_atom_phys_g, index_atom_log_g, index_atom_phys, index_atom_log. rewrite find_pd_g_false.
   split; apply flat_map_ext_all; intros c; now rewrite match_q_g_false.
@@ -1041,15 +1495,15 @@ Qed.
 
 Theorem current_code_is_all_flags_false e q :
   symbolic_g false e = symbolic e /\ find_pd_g false e = find_pd e /\
-  get_max_phys_g false false e q = get_max_phys e q /\ get_max_log_g false false e q = get_max_log e q.
+  get_max_phys_g false false false e q = get_max_phys e q /\ get_max_log_g false false false e q = get_max_log e q.
 Proof.
   split; [apply symbolic_g_false|]. split; [apply find_pd_g_false|].
   unfold get_max_phys_g, get_max_log_g, get_max_phys, get_max_log.
   destruct q as [f|].
   - destruct (index_atom_g_false e f) as [-> ->]. auto.
-  - assert (E1 : flat_map (index_atom_phys_g false false e) (atoms_of e) = flat_map (index_atom_phys e) (atoms_of e))
+  - assert (E1 : flat_map (index_atom_phys_g false false false e) (atoms_of e) = flat_map (index_atom_phys e) (atoms_of e))
       by (apply flat_map_ext_all; intros f; apply index_atom_g_false).
-    assert (E2 : flat_map (index_atom_log_g false false e) (atoms_of e) = flat_map (index_atom_log e) (atoms_of e))
+    assert (E2 : flat_map (index_atom_log_g false false false e) (atoms_of e) = flat_map (index_atom_log e) (atoms_of e))
       by (apply flat_map_ext_all; intros f; apply index_atom_g_false).
     rewrite E1, E2. auto.
 Qed.
@@ -1057,18 +1511,77 @@ Qed.
 (* with the exponent translated, SymbolicExpr is the homomorphic extension for EVERY kernel *)
 Theorem symbolic_g_true_is_subst e : symbolic_g true e = subst chain_name e.
 Proof.
-  induction e using expr_ind'; simpl; try reflexivity;
-    try (f_equal; apply map_ext_Forall; assumption).
+  induction e using expr_ind'; simpl; try reflexivity; auto;
+    try (f_equal; apply mapM_ext_Forall; assumption).
   - now rewrite IHe1, IHe2.
-  - f_equal. apply map_ext_Forall. eapply Forall_impl; [|exact H]. intros r Hr. now apply map_ext_Forall.
+  - f_equal. apply mapM_ext_Forall. eapply Forall_impl; [|exact H]. intros r Hr. now apply mapM_ext_Forall.
+  - destruct g; reflexivity.
 Qed.
-Theorem symbolic_g_true_plain e : plainb (symbolic_g true e) = true.
+Theorem symbolic_g_true_plain e r : symbolic_g true e = Ok r -> plainb r = true.
 Proof. rewrite symbolic_g_true_is_subst. apply subst_plainb. Qed.
+
+(* ------------------------------------------------------------------ when SymbolicExpr raises *)
+(* an atom has a name unless it is a fourth, fifth, ... component of a mapping *)
+Fixpoint atom_ok (a : fatom) : bool :=
+  match a with FSide _ a' => atom_ok a' | FMap _ i => Nat.ltb i 3 | _ => true end.
+(* every object of the kernel has a translation *)
+Fixpoint translatable (e : expr) : bool :=
+  match e with
+  | Opaque _ => false
+  | Chain _ a => atom_ok a
+  | Add l | Mul l | Fn _ l | Tup l | Seq l => forallb translatable l
+  | Pow b x => translatable b && translatable x
+  | Mat _ rows => forallb (forallb translatable) rows
+  | Side _ x | PB _ _ x => translatable x
+  | _ => true
+  end.
+
+Lemma atom_name_total a code : (exists s, atom_name a code = Ok s) <-> atom_ok a = true.
+Proof.
+  induction a as [n|n i|p a IH|m i]; simpl; try (split; eauto; fail); [exact IH|].
+  destruct i as [|[|[|i]]]; simpl; split; eauto; try discriminate. intros [s E]. discriminate.
+Qed.
+Lemma chain_eval_total cur ops a code : (exists s, chain_eval cur ops a code = Ok s) <-> atom_ok a = true.
+Proof.
+  revert cur code. induction ops as [|o r IH]; intros cur code; simpl; [apply atom_name_total|].
+  destruct (match cur with Some c => kind_eqb c (kind_of o) | None => false end); apply IH.
+Qed.
+Lemma rmap_total {A B} (f : A -> B) r : (exists b, rmap f r = Ok b) <-> (exists a, r = Ok a).
+Proof. destruct r; simpl; split; intros [x E]; eauto; discriminate. Qed.
+Lemma forallb_Forall_iff {A} (p : A -> bool) l : forallb p l = true <-> Forall (fun x => p x = true) l.
+Proof.
+  induction l; simpl; [split; auto|]. rewrite andb_true_iff, IHl. split; [intros []; auto|].
+  intros H. inversion H. auto.
+Qed.
+Lemma Forall_iff {A} (P Q : A -> Prop) l : Forall (fun x => P x <-> Q x) l -> (Forall P l <-> Forall Q l).
+Proof. induction 1; split; intros K; inversion K; subst; constructor; tauto. Qed.
+
+(* SymbolicExpr returns a result exactly when every object of the kernel has a translation *)
+Theorem symbolic_total_iff e : (exists r, symbolic_g true e = Ok r) <-> translatable e = true.
+Proof.
+  induction e using expr_ind'; simpl; try (split; eauto; fail); auto;
+    try (rewrite rmap_total, mapM_total, forallb_Forall_iff; apply Forall_iff; assumption).
+  - rewrite rmap_total. apply chain_eval_total.
+  - rewrite andb_true_iff, <- IHe1, <- IHe2. split.
+    + intros [r E]. destruct (symbolic_g true e1); [|discriminate]. simpl in E. apply rmap_ok in E.
+      destruct E as [x [E _]]. eauto.
+    + intros [[b ->] [x ->]]. simpl. eauto.
+  - rewrite rmap_total, mapM_total, forallb_Forall_iff. apply Forall_iff.
+    eapply Forall_impl; [|exact H]. intros r Hr. rewrite mapM_total, forallb_Forall_iff. now apply Forall_iff.
+  - destruct g; split; eauto.
+  - split; [intros [r E]; discriminate|discriminate].
+Qed.
+(* a kernel with an object that has no arm is refused, a kernel with a fourth mapping component as well *)
+Example symbolic_raises :
+  symbolic_g true (Add [Chain [Dx] (FScal "u"); Opaque true]) = Err ENotImpl /\
+  symbolic_g true (Mul [Sym "t"; Chain [D1] (FMap (MPlain "M" SNone) 3)]) = Err EValue /\
+  symbolic_g true (PB "w" true (Mul [Opaque true; Vec "w"])) = Err ENotImpl.
+Proof. repeat split. Qed.
 
 (* with every sub-expression entered, the traversal returns exactly the chains of the kernel *)
 Lemma find_pd_g_true e : find_pd_g true e = chains_of e.
 Proof.
-  induction e using expr_ind'; simpl; try reflexivity; try (apply flat_map_ext_Forall; assumption).
+  induction e using expr_ind'; simpl; try reflexivity; auto; try (apply flat_map_ext_Forall; assumption).
   - now rewrite IHe1, IHe2.
   - apply flat_map_ext_Forall. eapply Forall_impl; [|exact H]. intros r Hr. now apply flat_map_ext_Forall.
 Qed.
@@ -1078,94 +1591,108 @@ Proof.
   destruct ea; [rewrite find_pd_g_true; auto|]. rewrite find_pd_g_false. apply find_pd_sub.
 Qed.
 
-Lemma match_q_g_spec vq rest a q :
-  match_q_g vq rest a q = true -> rest = [] /\ qmatch (Some q) (rest, a) = true.
+Lemma match_q_g_spec vq sq rest a q :
+  match_q_g vq sq rest a q = true -> rest = [] /\ qmatch (Some q) (rest, a) = true.
 Proof.
   destruct q as [f|n]; simpl.
-  - destruct rest; [auto|discriminate].
-  - intros H. apply andb_true_iff in H. destruct H as [_ H]. destruct rest; [|discriminate].
-    destruct a; [discriminate|auto].
+  - destruct rest; [|discriminate]. intros H. split; [reflexivity|].
+    destruct sq; [exact H|]. rewrite orb_diag in H. now rewrite H.
+  - intros H. apply andb_true_iff in H. destruct H as [_ H]. destruct rest; [|destruct sq; discriminate].
+    split; [reflexivity|]. destruct sq; [exact H|]. destruct a; try discriminate. exact H.
 Qed.
 Lemma match_q_g_true rest a q :
-  rest = [] -> qmatch (Some q) (rest, a) = true -> match_q_g true rest a q = true.
+  rest = [] -> qmatch (Some q) (rest, a) = true -> match_q_g true true rest a q = true.
 Proof. intros ->. destruct q as [f|n]; simpl; auto. Qed.
 
 Lemma qmatch_fst q ops1 ops2 a : qmatch q (ops1, a) = qmatch q (ops2, a).
 Proof. destruct q as [[f|n]|]; reflexivity. Qed.
 
-Definition reported_phys_g ea vq (e : expr) (q : option query) : list idx3 :=
-  match q with None => flat_map (index_atom_phys_g ea vq e) (atoms_of e) | Some f => index_atom_phys_g ea vq e f end.
-Definition reported_log_g ea vq (e : expr) (q : option query) : list idx3 :=
-  match q with None => flat_map (index_atom_log_g ea vq e) (atoms_of e) | Some f => index_atom_log_g ea vq e f end.
+Definition reported_phys_g ea vq sq (e : expr) (q : option query) : list idx3 :=
+  match q with None => flat_map (index_atom_phys_g ea vq sq e) (atoms_of e) | Some f => index_atom_phys_g ea vq sq e f end.
+Definition reported_log_g ea vq sq (e : expr) (q : option query) : list idx3 :=
+  match q with None => flat_map (index_atom_log_g ea vq sq e) (atoms_of e) | Some f => index_atom_log_g ea vq sq e f end.
 
-Lemma get_max_phys_g_some ea vq e q t : get_max_phys_g ea vq e q = Some t -> t = max3 (reported_phys_g ea vq e q).
+Lemma get_max_phys_g_some ea vq sq e q t : get_max_phys_g ea vq sq e q = Some t -> t = max3 (reported_phys_g ea vq sq e q).
 Proof. destruct q; simpl; [congruence|]. destruct (is_pyseq e); congruence. Qed.
-Lemma get_max_log_g_some ea vq e q t : get_max_log_g ea vq e q = Some t -> t = max3 (reported_log_g ea vq e q).
+Lemma get_max_log_g_some ea vq sq e q t : get_max_log_g ea vq sq e q = Some t -> t = max3 (reported_log_g ea vq sq e q).
 Proof. destruct q; simpl; [congruence|]. destruct (is_pyseq e); congruence. Qed.
 
-Lemma index_atom_phys_g_sound ea vq e f t :
-  In t (index_atom_phys_g ea vq e f) ->
+Lemma index_atom_phys_g_sound ea vq sq e f t :
+  In t (index_atom_phys_g ea vq sq e f) ->
   exists c, In c (chains_of e) /\ qmatch (Some f) c = true /\ t = phys_index (fst c).
 Proof.
   unfold index_atom_phys_g. rewrite in_flat_map. intros [c [Hc Ht]]. apply (proj1 (sort_pd_In _ _)) in Hc.
-  destruct (match_q_g vq (strip_phys (fst c)) (snd c) f) eqn:E; [|contradiction].
+  destruct (match_q_g vq sq (strip_phys (fst c)) (snd c) f) eqn:E; [|contradiction].
   apply match_q_g_spec in E. destruct E as [_ E]. destruct Ht as [<-|[]].
   exists c. split; [eapply find_pd_g_sub; eauto|]. split; [|reflexivity].
   destruct c as [ops a]. exact E.
 Qed.
-Lemma index_atom_log_g_sound ea vq e f t :
-  In t (index_atom_log_g ea vq e f) ->
+Lemma index_atom_log_g_sound ea vq sq e f t :
+  In t (index_atom_log_g ea vq sq e f) ->
   exists c, In c (chains_of e) /\ qmatch (Some f) c = true /\ t = log_index (fst c).
 Proof.
   unfold index_atom_log_g. rewrite in_flat_map. intros [c [Hc Ht]]. apply (proj1 (sort_pd_In _ _)) in Hc.
-  destruct (match_q_g vq (strip_log (fst c)) (snd c) f) eqn:E; [|contradiction].
+  destruct (match_q_g vq sq (strip_log (fst c)) (snd c) f) eqn:E; [|contradiction].
   apply match_q_g_spec in E. destruct E as [_ E]. destruct Ht as [<-|[]].
   exists c. split; [eapply find_pd_g_sub; eauto|]. split; [|reflexivity].
   destruct c as [ops a]. exact E.
 Qed.
 
-Lemma reported_phys_g_sound ea vq e q t :
-  In t (reported_phys_g ea vq e q) -> exists c, In c (chains_of e) /\ qmatch q c = true /\ t = phys_index (fst c).
+(* a chain that a plain function / component / vector function is asked about is a chain over a function *)
+Lemma qmatch_plain_fun q c : qplain q = true -> qmatch (Some q) c = true -> funatom (snd c) = true.
+Proof.
+  destruct q as [f|n]; simpl; intros Hp H.
+  - rewrite funatom_unside. apply orb_true_iff in H. destruct H as [H|H]; apply fatom_eqb_eq in H.
+    + rewrite H. destruct f; try discriminate; reflexivity.
+    + now rewrite H.
+  - rewrite funatom_unside. destruct (unside (snd c)); try discriminate. reflexivity.
+Qed.
+
+Lemma reported_phys_g_sound ea vq sq e q t :
+  In t (reported_phys_g ea vq sq e q) -> exists c, In c (chains_of e) /\ qmatch q c = true /\ t = phys_index (fst c).
 Proof.
   destruct q as [f|]; simpl; [apply index_atom_phys_g_sound|].
-  intros H. apply in_flat_map in H. destruct H as [f [_ H]]. apply index_atom_phys_g_sound in H.
-  destruct H as [c [Hc [_ ->]]]. exists c. auto.
+  intros H. apply in_flat_map in H. destruct H as [f [Hf H]]. apply index_atom_phys_g_sound in H.
+  destruct H as [c [Hc [Hq ->]]]. exists c. repeat split; auto.
+  eapply qmatch_plain_fun; eauto using atoms_of_plain.
 Qed.
-Lemma reported_log_g_sound ea vq e q t :
-  In t (reported_log_g ea vq e q) -> exists c, In c (chains_of e) /\ qmatch q c = true /\ t = log_index (fst c).
+Lemma reported_log_g_sound ea vq sq e q t :
+  In t (reported_log_g ea vq sq e q) -> exists c, In c (chains_of e) /\ qmatch q c = true /\ t = log_index (fst c).
 Proof.
   destruct q as [f|]; simpl; [apply index_atom_log_g_sound|].
-  intros H. apply in_flat_map in H. destruct H as [f [_ H]]. apply index_atom_log_g_sound in H.
-  destruct H as [c [Hc [_ ->]]]. exists c. auto.
+  intros H. apply in_flat_map in H. destruct H as [f [Hf H]]. apply index_atom_log_g_sound in H.
+  destruct H as [c [Hc [Hq ->]]]. exists c. repeat split; auto.
+  eapply qmatch_plain_fun; eauto using atoms_of_plain.
 Qed.
 
 Lemma index_atom_phys_g_complete e f c :
   In c (chains_of e) -> qmatch (Some f) c = true -> forallb is_phys (fst c) = true ->
-  In (phys_index (fst c)) (index_atom_phys_g true true e f).
+  In (phys_index (fst c)) (index_atom_phys_g true true true e f).
 Proof.
   intros Hc Hq Hp. unfold index_atom_phys_g. apply in_flat_map. exists c. split.
   - apply sort_pd_In. now rewrite find_pd_g_true.
-  - assert (E : match_q_g true (strip_phys (fst c)) (snd c) f = true).
+  - assert (E : match_q_g true true (strip_phys (fst c)) (snd c) f = true).
     { apply match_q_g_true; [now apply strip_phys_nil|]. destruct c as [ops a]. exact Hq. }
     rewrite E. simpl. auto.
 Qed.
 Lemma index_atom_log_g_complete e f c :
   In c (chains_of e) -> qmatch (Some f) c = true -> forallb is_log (fst c) = true ->
-  In (log_index (fst c)) (index_atom_log_g true true e f).
+  In (log_index (fst c)) (index_atom_log_g true true true e f).
 Proof.
   intros Hc Hq Hp. unfold index_atom_log_g. apply in_flat_map. exists c. split.
   - apply sort_pd_In. now rewrite find_pd_g_true.
-  - assert (E : match_q_g true (strip_log (fst c)) (snd c) f = true).
+  - assert (E : match_q_g true true (strip_log (fst c)) (snd c) f = true).
     { apply match_q_g_true; [now apply strip_log_nil|]. destruct c as [ops a]. exact Hq. }
     rewrite E. simpl. auto.
 Qed.
 
-Lemma qmatch_self c : qmatch (Some (QAtom (snd c))) c = true.
-Proof. simpl. now apply fatom_eqb_eq. Qed.
+(* the function under a chain: the chain is one of its chains *)
+Lemma qmatch_self c : qmatch (Some (QAtom (unside (snd c)))) c = true.
+Proof. simpl. rewrite fatom_eqb_refl. apply orb_true_r. Qed.
 
 (* never more than the truth, whatever repairs are applied *)
-Theorem max_phys_g_le_true ea vq e q t d :
-  get_max_phys_g ea vq e q = Some t -> is_phys d = true -> proj_of d t <= true_max d e q.
+Theorem max_phys_g_le_true ea vq sq e q t d :
+  get_max_phys_g ea vq sq e q = Some t -> is_phys d = true -> proj_of d t <= true_max d e q.
 Proof.
   intros H Hd. apply get_max_phys_g_some in H. subst t. rewrite proj_max3. unfold true_max.
   apply list_max_le_ex. intros x Hx. apply in_map_iff in Hx. destruct Hx as [t [<- Ht]].
@@ -1173,8 +1700,8 @@ Proof.
   exists (count d (fst c)). split; [|rewrite proj_phys by assumption; lia].
   apply in_map_iff. exists c. split; auto. apply filter_In. auto.
 Qed.
-Theorem max_log_g_le_true ea vq e q t d :
-  get_max_log_g ea vq e q = Some t -> is_log d = true -> proj_of d t <= true_max d e q.
+Theorem max_log_g_le_true ea vq sq e q t d :
+  get_max_log_g ea vq sq e q = Some t -> is_log d = true -> proj_of d t <= true_max d e q.
 Proof.
   intros H Hd. apply get_max_log_g_some in H. subst t. rewrite proj_max3. unfold true_max.
   apply list_max_le_ex. intros x Hx. apply in_map_iff in Hx. destruct Hx as [t [<- Ht]].
@@ -1183,9 +1710,10 @@ Proof.
   apply in_map_iff. exists c. split; auto. apply filter_In. auto.
 Qed.
 
-(* with the repairs: exact for EVERY kernel (matrices, functions, exponents) and every query, pure chains *)
+(* with the repairs: exact for EVERY kernel (matrices, functions, exponents, interface operators) and every query,
+   pure chains *)
 Theorem max_phys_g_exact e q t d :
-  pure_chains e = true -> get_max_phys_g true true e q = Some t -> is_phys d = true ->
+  pure_chains e = true -> get_max_phys_g true true true e q = Some t -> is_phys d = true ->
   proj_of d t = true_max d e q.
 Proof.
   intros Hp H Hd. apply Nat.le_antisymm; [eapply max_phys_g_le_true; eauto|].
@@ -1198,11 +1726,11 @@ Proof.
   exists (proj_of d (phys_index (fst c))). split; [|rewrite proj_phys by assumption; lia].
   apply in_map. destruct q as [f|]; simpl.
   - now apply index_atom_phys_g_complete.
-  - apply in_flat_map. exists (QAtom (snd c)). split; [now apply chains_atoms|].
+  - apply in_flat_map. exists (QAtom (unside (snd c))). split; [now apply chains_atoms|].
     apply index_atom_phys_g_complete; auto using qmatch_self.
 Qed.
 Theorem max_log_g_exact e q t d :
-  pure_chains e = true -> get_max_log_g true true e q = Some t -> is_log d = true ->
+  pure_chains e = true -> get_max_log_g true true true e q = Some t -> is_log d = true ->
   proj_of d t = true_max d e q.
 Proof.
   intros Hp H Hd. apply Nat.le_antisymm; [eapply max_log_g_le_true; eauto|].
@@ -1215,6 +1743,39 @@ Proof.
   exists (proj_of d (log_index (fst c))). split; [|rewrite proj_log by assumption; lia].
   apply in_map. destruct q as [f|]; simpl.
   - now apply index_atom_log_g_complete.
-  - apply in_flat_map. exists (QAtom (snd c)). split; [now apply chains_atoms|].
+  - apply in_flat_map. exists (QAtom (unside (snd c))). split; [now apply chains_atoms|].
     apply index_atom_log_g_complete; auto using qmatch_self.
+Qed.
+
+(* the current code (every sub-expression entered, VectorFunction queries, interface operators not looked
+   through): exact for every kernel without chains over a function restricted to a side of an interface *)
+Lemma match_q_g_unsided vq rest a q : sided a = false -> match_q_g vq false rest a q = match_q_g vq true rest a q.
+Proof. intros H. unfold match_q_g. now rewrite (unside_unsided _ H). Qed.
+
+Lemma index_atom_g_unsided e f :
+  unsided_chains e = true ->
+  index_atom_phys_g true true false e f = index_atom_phys_g true true true e f /\
+  index_atom_log_g true true false e f = index_atom_log_g true true true e f.
+Proof.
+  intros Hu. unfold unsided_chains in Hu. rewrite forallb_forall in Hu.
+  unfold index_atom_phys_g, index_atom_log_g. split; apply flat_map_ext_Forall; apply Forall_forall; intros c Hc;
+    apply (proj1 (sort_pd_In _ _)) in Hc; rewrite find_pd_g_true in Hc; specialize (Hu c Hc); apply negb_true_iff in Hu;
+    now rewrite (match_q_g_unsided _ _ _ _ Hu).
+Qed.
+
+Theorem max_g_current_exact e q t d :
+  pure_chains e = true -> unsided_chains e = true ->
+  (get_max_phys_g true true false e q = Some t -> is_phys d = true -> proj_of d t = true_max d e q) /\
+  (get_max_log_g true true false e q = Some t -> is_log d = true -> proj_of d t = true_max d e q).
+Proof.
+  intros Hp Hu.
+  assert (E : get_max_phys_g true true false e q = get_max_phys_g true true true e q /\
+              get_max_log_g true true false e q = get_max_log_g true true true e q).
+  { unfold get_max_phys_g, get_max_log_g. destruct q as [f|].
+    - destruct (index_atom_g_unsided e f Hu) as [-> ->]. auto.
+    - rewrite (flat_map_ext_all (index_atom_phys_g true true false e) (index_atom_phys_g true true true e))
+        by (intros f; apply index_atom_g_unsided; exact Hu).
+      rewrite (flat_map_ext_all (index_atom_log_g true true false e) (index_atom_log_g true true true e))
+        by (intros f; apply index_atom_g_unsided; exact Hu). auto. }
+  destruct E as [-> ->]. split; intros; [eapply max_phys_g_exact|eapply max_log_g_exact]; eauto.
 Qed.
